@@ -106,6 +106,9 @@ def replay_rounds(ctx, bench, variant, rounds, findings, stats, yield_seed, tag,
     dm = None
     try:
         for i, rd in enumerate(rounds):
+            if stats["violations"] >= 8:
+                log("%s: stopping after %d violations" % (tag, stats["violations"]))
+                break
             if dm is None or fresh_each:
                 if dm is not None:
                     dm.stop()
@@ -219,6 +222,9 @@ def run(ctx):
     # fresh daemons: the first use of process-wide state (CRC table ...) by several sessions at once
     first = [dict(scens=[s for s in scens if s["gaps"] == ["overlap", "overlap"] and "zero" not in s["mods"]][i::7][:2],
                   seed=rng.getrandbits(31)) for i in range(3 if quick else 10)]
+    # sessions that fail at the same time (error path: errbuf, error frame, exit frame), parked on the payload barrier
+    both_fail = [s for s in scens if s["mods"].count("fail") >= 2 and s["gaps"] == ["overlap", "overlap"]]
+    first += [dict(scens=[both_fail[(ctx.seed + j) % len(both_fail)]], seed=rng.getrandbits(31)) for j in range(1 if quick else 4)]
     tlog = replay_rounds(ctx, bench, "tsan", first, findings, stats, yield_seed=0, tag="tsanF", fresh_each=True, sync=True)
     tlog += replay_rounds(ctx, bench, "tsan", pick_rounds(scens, rng, 6 if quick else 60, 2 if quick else 10, 3 if quick else 10),
                           findings, stats, yield_seed=ctx.seed + 17, tag="tsanR")
@@ -268,6 +274,9 @@ def run(ctx):
 
 
 def replay(ctx, path):
+    if path.endswith(".ndjson"):
+        from props import vmd_trace
+        return vmd_trace.replay_trace(ctx, L.Bench(ctx, ("plain",)).wait(), path)
     rp = json.load(open(path)) if path.endswith(".json") else None
     if rp is None:
         print(open(path).read())
